@@ -1,15 +1,26 @@
 import CssVerif.Lemmas.SerCost
+import CssVerif.Lemmas.SelTotal
+import CssVerif.Lemmas.MediaTotal
+import CssVerif.Lemmas.TokDom
+import CssVerif.Lemmas.ParseSteps
+import CssVerif.Lemmas.StructLocal
+import CssVerif.Lemmas.ParseAllDom
+import CssVerif.Lemmas.MediaPrelude
 import CssVerif.Props.C05
 import CssVerif.Props.C04
 /-!
 # C01 — parsing any input returns a DOM: never raises, never hangs
 
-Three layers are proved here: (1) the tokenizer model never spins, never raises and needs no fuel, for every
-text (from the generated productions being non-nullable with CHAR / INVALID as catch-all); (2) the structure
-kernel's token collector `_tokensupto2` and the nested-@media recursion always terminate and neither lose nor
-invent tokens; (3) the cost of serialising a value is linear in its size. The never-raises clause of the WHOLE
-parser (selectors, values, DOM construction) is decided by exploration of the implementation, see
-tools/harness/c01.py and DESIGN.md.
+Layers proved here: (1) the tokenizer model never spins, never raises and needs no fuel, for every text (from the
+generated productions being non-nullable with CHAR / INVALID as catch-all); (2) the structure kernel's token
+collector `_tokensupto2` and the nested-@media recursion always terminate and neither lose nor invent tokens;
+(3) the parser kernels COMPOSED (`Model/ParseAll.lean`: text → tokens → sheet dispatcher → selector machine on every
+ruleset prelude / declaration-block parser on every block / media engine on every `@media` prelude) return on every
+text without an exception value and without running out of fuel (`parse_kernels_total`; the media engine on the
+token domain of its model, `media_engine_total_partial`), with one loop iteration per token in every loop
+(`parse_steps_bound_partial`); (4) the cost of serialising a value is linear in its size. The never-raises clause for
+what stays opaque in the composition (property values, the bodies of the other at-rules, DOM construction, imports) is
+decided by exploration of the implementation, see tools/harness/c01.py.
 -/
 namespace CssVerif.C01
 open CssVerif.SerCost
@@ -46,6 +57,161 @@ theorem nested_media_needs_no_fuel (O : Struct.Oracle) (ns : List (Proto.Cps × 
     Struct.mediaRule O ns f₁ ts = Struct.mediaRule O ns f₂ ts ∧ Struct.mediaRule O ns f₁ ts ≠ none :=
   Props.C04.media_fuel_irrelevant O ns f₁ f₂ ts h1 h2
 
+/-! ## T1.3 the kernels composed -/
+
+/-- the selector machine (`_prepare_tokens`, the `New` state machine, the post-conditions and the commit, the
+comma loop of `SelectorList`) returns on EVERY list of tokens of the tokenizer's domain: none of its partial Python
+operations (`self.context[-1]`, `prefix, val = val.split('|')`, `value[0]`, `_names[val]`) produces an exception
+value, whatever the namespaces are. -/
+theorem selector_machine_total (ns : Sel.NsMap) (l : List Sel.Tok) (h : ∀ t ∈ l, ParseAll.selDom t = true) :
+    ∃ r, Sel.parseList ns l = .ok r :=
+  SelTotal.parseList_total ns l h
+
+/-- … and every token of every sheet IS in that domain: a CHAR is one character, a STRING keeps its quote, and the
+type names are the tokenizer's own (theorems about the tokenizer model over the regenerated productions). -/
+theorem token_stream_in_selector_domain (text : Proto.Cps) (doC : Bool) :
+    ∀ it ∈ ParseAll.stream text doC, ParseAll.selDom (ParseAll.selTok it) = true :=
+  TokDom.stream_selDom text doC
+
+/-- FULL statement wanted: for every token list `l`, `Media.parseL strict fromText {} l ≠ .unsupported`.
+It is FALSE for the model as it stands: `Model/Media.lean` answers `unsupported` (never a guess) at a colour
+FUNCTION in feature-value position (`@media (color: rgb(1,2,3))`, the nested `ColorValue` parser is not part of that
+model) and at one of the values `( ) : ,` carried by a token that is not a CHAR (`@media \28 {…}`: an IDENT whose
+value is `(`); both can be written in a sheet. Proved: on the token domain `mediaDom` the media engine (query
+automaton + list automaton with the two hand-back channels) always answers `ok` or `bad`; it has no fuel.
+The correspondence counts how often a generated prelude is outside `mediaDom` and skips those texts. -/
+theorem media_engine_total_partial (strict fromText : Bool) (l : List Media.Tok)
+    (h : ∀ t ∈ l, ParseAll.mediaDom t = true) :
+    Media.parseL strict fromText {} l ≠ .unsupported ∧ Media.parseQ {} l ≠ .unsupported :=
+  ⟨MediaTotal.parseL_supported strict fromText l {} h, MediaTotal.parseQ_supported l {} h⟩
+
+/-- T1.3 (main). On EVERY text, with comments kept or dropped:
+(a) the tokenizer returns;
+(b) the sheet dispatcher, for every answer of the sub-parsers it treats as opaque, never leaves a `_parse` loop
+    because an iterator grew (the guard of `parseLoop`) and always has fuel left for `@media` inside `@media`;
+(c) the selector machine returns a value — no exception — on EVERY list of tokens drawn from the stream, under
+    every namespace map: in particular on every prelude the dispatcher collects;
+(d) the media engine returns `ok` or `bad` on every such list that lies in the domain of its model.
+The declaration-block parser is part of the dispatcher model (`Struct.parseDecls`, total by construction, its
+sub-loops covered by (b)). -/
+theorem parse_kernels_total (text : Proto.Cps) (doC : Bool) :
+    (∃ line col, (Tok.tokenize text true doC).stop = .done line col)
+    ∧ (∀ (O : Struct.Oracle) (ns : List (Proto.Cps × Proto.Cps)) (stmt : List Struct.Tok),
+        Struct.mediaRule O ns (stmt.length + 1) stmt ≠ none)
+    ∧ (∀ (ns : List (Proto.Cps × Proto.Cps)) (l : List Struct.Tok),
+        ∃ wf, ParseAll.selCall (ParseAll.stream text doC) ns l = .ok wf)
+    ∧ (∀ l : List Struct.Tok,
+        (∀ it ∈ ParseAll.lookup (ParseAll.stream text doC) l, ParseAll.mediaDom (ParseAll.mediaTok it) = true) →
+        ∃ wf, ParseAll.mediaCall (ParseAll.stream text doC) l = .ok wf) := by
+  refine ⟨C05.tokenize_total text true doC, ?_, ?_, ?_⟩
+  · intro O ns stmt
+    exact (Props.C04.media_fuel_irrelevant O ns (stmt.length + 1) (stmt.length + 1) stmt (by omega) (by omega)).2
+  · intro ns l
+    have hdom : ∀ t ∈ (ParseAll.lookup (ParseAll.stream text doC) l).map ParseAll.selTok,
+        ParseAll.selDom t = true := by
+      intro t ht
+      obtain ⟨it, hit, rfl⟩ := List.mem_map.mp ht
+      simp only [ParseAll.lookup, List.mem_filterMap] at hit
+      obtain ⟨st, _, hst⟩ := hit
+      exact TokDom.stream_selDom text doC it (List.mem_of_getElem? hst)
+    obtain ⟨r, hr⟩ := SelTotal.parseList_total ns _ hdom
+    unfold ParseAll.selCall ParseAll.selRun
+    rw [hr]
+    cases r with
+    | some s => exact ⟨true, rfl⟩
+    | none => exact ⟨false, rfl⟩
+  · intro l hl
+    have hdom : ∀ t ∈ (ParseAll.lookup (ParseAll.stream text doC) l).map ParseAll.mediaTok,
+        ParseAll.mediaDom t = true := by
+      intro t ht
+      obtain ⟨it, hit, rfl⟩ := List.mem_map.mp ht
+      exact hl it hit
+    have hs := MediaTotal.parseL_supported false false _ {} hdom
+    unfold ParseAll.mediaCall ParseAll.mediaRun
+    split
+    · exact ⟨_, rfl⟩
+    · exact ⟨_, rfl⟩
+    · rename_i hu; exact absurd hu hs
+
+/-- T1.3' locality: the dispatcher hands its sub-parsers (selector list, media list, property value, the other
+at-rules, `@namespace`) only lists of tokens drawn from the token list it is parsing — two oracles that agree on all
+such lists give the same `cssRules`, at every nesting depth of `@media`. So the quantification "every list of tokens
+drawn from the stream" in `parse_kernels_total` (c), (d) covers every call the dispatcher makes, and what a sub-parser
+would do on any other list (raise, hang, answer differently) cannot reach the result. -/
+theorem dispatcher_consults_stream_only (O₁ O₂ : Struct.Oracle) (M : List Proto.Cps) (ts : List Struct.Tok)
+    (h : StructLocal.AgreeOn O₁ O₂ ts) : Struct.parseSheet O₁ M ts = Struct.parseSheet O₂ M ts :=
+  StructLocal.parseSheet_local O₁ O₂ M ts h
+
+/-- … in particular the composed parse of a text does not depend on how the opaque sub-parsers behave off the
+stream: `ext₁`, `ext₂` need to agree only on lists of stream tokens -/
+theorem composed_parse_local (ext₁ ext₂ : Struct.Oracle) (M : List Proto.Cps) (text : Proto.Cps) (doC : Bool)
+    (h : StructLocal.AgreeOn ext₁ ext₂ (ParseAll.structToks (ParseAll.stream text doC))) :
+    ParseAll.parseText ext₁ M text doC = ParseAll.parseText ext₂ M text doC := by
+  unfold ParseAll.parseText
+  apply StructLocal.parseSheet_local
+  intro l hl
+  obtain ⟨h1, _, _, h4, h5⟩ := h l hl
+  exact ⟨h1, fun _ => rfl, rfl, h4, h5⟩
+
+/-- the token stream of every text is in the domain `tokWF` of the dispatcher model (an EOF token only as the last
+token, a CHAR is one character): the domain on which the drivers run `Struct` and C04's containment theorems speak -/
+theorem token_stream_in_dispatcher_domain (text : Proto.Cps) (doC : Bool) :
+    Struct.tokWF (ParseAll.structToks (ParseAll.stream text doC)) = true :=
+  ParseAllDom.stream_tokWF text doC
+
+/-- a list of dispatcher tokens drawn from the stream is looked up, position by position, to exactly the tuples it was
+made from: the sub-parsers of the composition receive what the dispatcher collected, nothing lost or replaced -/
+theorem prelude_lookup_faithful (items : List Tok.Item) (l : List Struct.Tok)
+    (h : StructLocal.Sub l (ParseAll.structToks items)) :
+    (ParseAll.lookup items l).length = l.length ∧
+    ∀ (i : Nat) (t : Struct.Tok), l[i]? = some t →
+      ∃ it, (ParseAll.lookup items l)[i]? = some it ∧ t = ParseAll.structTok t.pos it :=
+  ParseAllDom.lookup_list items l h
+
+/-- the EOF conjunct of `mediaDom` holds for every prelude the dispatcher hands to the media engine: `_tokensupto2`
+stops at the first EOF and `separateEnd` takes the last token off (`cssmediarule.py:104-106`) -/
+theorem media_prelude_never_holds_eof (rest0 : List Struct.Tok) :
+    ∀ t ∈ (Struct.sepEnd (Struct.upto .mq none rest0).1).1, t.typ ≠ .eof :=
+  MediaPrelude.media_prelude_noEof rest0
+
+/-- T1.4 FULL statement wanted: one cost function of the text that counts every token taken from an iterator by any
+loop of the composed kernels, with a bound quadratic in the number of tokens (quadratic because each level of
+`@media` inside `@media` collects its block again). Proved — the pieces such a bound is made of:
+(a) the tokenizer's loop runs at most once per code point (+ BOM, `@charset `, EOF), hence so many tokens at most;
+(b) every production of every `_parse` loop of the dispatcher (sheet, `@media` block, declaration block, unknown
+    rule, property name, priority) leaves the shared iterator no longer than it found it: at most one iteration per
+    token in each loop, and the nesting of `@media` is bounded by the statement's length (`parse_kernels_total` (b));
+(c) `_prepare_tokens` does not lengthen a prelude, the state machine makes one step per prepared token, and the
+    comma loop of the selector list takes at least one token per round — its fuel `len + 1` is never used up;
+(d) the media engine is a structural recursion over the prelude: one step per token by definition.
+Missing: the sum over the nested `_tokensupto2` calls as one number (needs a cost-instrumented copy of `Struct`). -/
+theorem parse_steps_bound_partial (text : Proto.Cps) (doC : Bool) :
+    (Tok.tokenize text true doC).items.length ≤ text.length + 3
+    ∧ (ParseAll.stream text doC).length ≤ text.length + 3
+    ∧ (∀ (O : Struct.Oracle) (M : List Proto.Cps) (st : Struct.SheetSt) (t : Struct.Tok) (rest : List Struct.Tok),
+        (Struct.sheetStep O M st t rest).2.length ≤ rest.length)
+    ∧ (∀ (O : Struct.Oracle) (ns : List (Proto.Cps × Proto.Cps)) (nested : List Struct.Tok → Option Struct.Rule)
+        (acc : List Struct.Rule) (t : Struct.Tok) (rest : List Struct.Tok),
+        (Struct.mediaStep O ns nested acc t rest).2.length ≤ rest.length)
+    ∧ (∀ (O : Struct.Oracle) (acc : List Struct.Item) (t : Struct.Tok) (rest : List Struct.Tok),
+        (Struct.declStep O acc t rest).2.length ≤ rest.length)
+    ∧ (∀ (s : Struct.UnkSt) (t : Struct.Tok) (rest : List Struct.Tok), (Struct.unkStep s t rest).2.length ≤ rest.length)
+    ∧ (∀ (s : Struct.NameSt) (t : Struct.Tok) (rest : List Struct.Tok), (Struct.nameStep s t rest).2.length ≤ rest.length)
+    ∧ (∀ (s : Struct.PrioSt) (t : Struct.Tok) (rest : List Struct.Tok), (Struct.prioStep s t rest).2.length ≤ rest.length)
+    ∧ (∀ l : List Sel.Tok, (Sel.prepare l).length ≤ l.length)
+    ∧ (∀ (ns : Sel.NsMap) (f : Nat) (l : List Sel.Tok) (e : Sel.ListExp) (wf : Bool) (acc : List Sel.SelRec),
+        l.length < f → Sel.listLoop ns f l e wf acc = Sel.listLoop ns (l.length + 1) l e wf acc) := by
+  refine ⟨TokDom.items_le text true doC, ?_, Struct.sheetStep_rest_le, ParseSteps.mediaStep_rest_le,
+    Struct.declStep_rest_le, ParseSteps.unkStep_rest_le, ParseSteps.nameStep_rest_le, ParseSteps.prioStep_rest_le,
+    ParseSteps.prepare_length, ?_⟩
+  · have h1 := TokDom.items_le text true doC
+    have h2 : (ParseAll.stream text doC).length ≤ (Tok.tokenize text true doC).items.length := by
+      simp only [ParseAll.stream, Tok.Res.tokens]
+      exact List.length_filter_le _ _
+    omega
+  · intro ns f l e wf acc h
+    exact ParseSteps.listLoop_fuel ns f (l.length + 1) l e wf acc h (by omega)
+
 /-- T1.6 with the repaired serializer (one evaluation of a child's `cssText` per append) the number of
 serializer entries equals the number of function nodes of the value — linear, for EVERY value tree. -/
 theorem serialize_visits_linear (v : V) : visits 1 v = fnCount v := visits_one v
@@ -58,6 +224,28 @@ theorem double_evaluation_is_exponential (d : Nat) :
   ⟨visits_chain_two d, fnCount_chain d⟩
 
 /-! non-vacuity / concrete instances -/
+-- `AgreeOn` is satisfiable: by the same oracle, and by two oracles that differ only off the token list
+example (O : Struct.Oracle) (ts : List Struct.Tok) : StructLocal.AgreeOn O O ts :=
+  fun _ _ => ⟨rfl, fun _ => rfl, rfl, fun _ _ => rfl, rfl⟩
+example (O : Struct.Oracle) (ts : List Struct.Tok) :
+    StructLocal.AgreeOn O { O with valueOk := fun l => if l.all (· ∈ ts) then O.valueOk l else !O.valueOk l } ts := by
+  intro l hl
+  have : l.all (· ∈ ts) = true := by simpa [StructLocal.Sub] using hl
+  exact ⟨by simp [this], fun _ => rfl, rfl, fun _ _ => rfl, rfl⟩
+-- a `Sub` list exists for `prelude_lookup_faithful`, and `tokWF` on a concrete sheet (test)
+example (items : List Tok.Item) : StructLocal.Sub [] (ParseAll.structToks items) := fun _ h => by cases h
+example : Struct.tokWF (ParseAll.structToks (ParseAll.stream (Proto.cps "a{b:c}") true)) = true := by decide
+-- the domains are inhabited by ordinary tokens, and the machines do answer both ways on them
+example : ParseAll.selDom ⟨.ident, [97]⟩ = true ∧ ParseAll.selDom ⟨.char, [62]⟩ = true := by decide
+example : ParseAll.selRun [] [⟨.ident, [97]⟩, ⟨.char, [62]⟩, ⟨.ident, [98]⟩] = .ok true := by decide
+example : ParseAll.selRun [] [⟨.char, [62]⟩] = .ok false := by decide
+example : ParseAll.mediaDom { typ := .ident, val := Proto.cps "screen" } = true := by decide
+example : ParseAll.mediaRun [{ typ := .ident, val := Proto.cps "screen" }] = .ok true := by decide
+example : ParseAll.mediaRun [{ typ := .char, val := [44] }] = .ok false := by decide
+-- the guard of `media_engine_total_partial` is needed: an IDENT spelled `\28` leaves the media model (test)
+example : ParseAll.mediaRun [{ typ := .ident, val := [40] }] = .unsupported := by decide
+-- outside `selDom` the selector model does raise: a CHAR token of two characters `+>` (`_names[val]`) (test)
+example : ParseAll.selRun [] [⟨.ident, [97]⟩, ⟨.char, [43, 62]⟩] = .raised := by decide
 example : visits 1 (.fn [.fn [.leaf, .fn [.leaf]], .leaf]) = 3 := by decide
 example : visits 2 (chain 10) = 1023 := by decide
 
